@@ -38,25 +38,15 @@ fn kojarasu(graph: &G) -> Vec<G> {
 
     while let Some(node) = ordering.pop() {
         if !invariant.contains(node.key()) {
-            let cycle = node
-                .dfs()
+            let component = node
+                .preorder()
                 .transpose()
                 .filter(&mut |Edge(_, v, _)| !invariant.contains(v.key()))
-                .search_cycle();
-            match cycle {
-                Some(cycle) => {
-                    let mut cycle = cycle.to_vec_nodes();
-                    cycle.pop();
-                    for node in &cycle {
-                        invariant.insert(node.key().clone());
-                    }
-                    components.push(cycle);
-                }
-                None => {
-                    invariant.insert(node.key().clone());
-                    components.push(vec![node.clone()]);
-                }
+                .search_nodes();
+            for member in &component {
+                invariant.insert(member.key().clone());
             }
+            components.push(component);
         }
     }
     components
@@ -84,7 +74,7 @@ fn ex1() {
         (7) => []
     ];
 
-    let expect = vec![vec![7], vec![4, 5, 6], vec![0, 1, 2, 3]];
+    let expect = vec![vec![0, 1, 2, 3], vec![4, 5, 6], vec![7]];
 
     let mut g = g.to_vec();
     g.sort_by(|a, b| a.key().cmp(&b.key()));
@@ -123,7 +113,7 @@ fn ex2() {
         (8) => [5, 7, 8]
     ];
 
-    let expect = vec![vec![6, 7], vec![1, 2, 3], vec![8], vec![4, 5]];
+    let expect = vec![vec![8], vec![4, 5], vec![6, 7], vec![1, 2, 3]];
 
     let mut g = g.to_vec();
     g.sort_by(|a, b| a.key().cmp(&b.key()));
@@ -161,7 +151,7 @@ fn ex3() {
         (8) => [5]
     ];
 
-    let expect = vec![vec![5, 6, 7, 8], vec![4], vec![1, 2, 3]];
+    let expect = vec![vec![1, 2, 3], vec![4], vec![5, 6, 7, 8]];
 
     let mut g = g.to_vec();
     g.sort_by(|a, b| a.key().cmp(&b.key()));
@@ -199,7 +189,7 @@ fn ex4() {
         (7) => [3, 5]
     ];
 
-    let expect = vec![vec![0, 1, 2], vec![3, 7], vec![4, 5, 6]];
+    let expect = vec![vec![3, 7], vec![4, 5, 6], vec![0, 1, 2]];
 
     let mut g = g.to_vec();
     g.sort_by(|a, b| a.key().cmp(&b.key()));
